@@ -140,9 +140,10 @@ func loadInlineTrustMatrixCsv(
 		case to < 0:
 			return inputErrorf(1, "negative to=%#v", to)
 		}
-		value, err = strconv.ParseFloat(fields[2], 64)
-		switch {
-		case err != nil:
+		if len(fields) < 3 {
+			// no trust level column: default to 1, as the library readers do
+			value = 1
+		} else if value, err = strconv.ParseFloat(fields[2], 64); err != nil {
 			return inputWrapf(err, 2, "invalid trust value=%#v", fields[2])
 		}
 		inline.Entries = append(inline.Entries,
@@ -257,11 +258,12 @@ func loadInlineTrustVectorCsv(
 		case from < 0:
 			return inputErrorf(0, "negative from=%#v", from)
 		}
-		value, err = strconv.ParseFloat(fields[1], 64)
-		switch {
-		case err != nil:
+		if len(fields) < 2 {
+			// no trust level column: default to 1, as the library readers do
+			value = 1
+		} else if value, err = strconv.ParseFloat(fields[1], 64); err != nil {
 			return inputWrapf(err, 1, "invalid trust value=%#v", fields[1])
-		case value < 0:
+		} else if value < 0 {
 			return inputErrorf(1, "negative value=%#v", value)
 		}
 		inline.Entries = append(inline.Entries,
